@@ -445,11 +445,20 @@ impl<T: Value> Tree<T> {
                     return Err(Error::IntraRebaseZeroHash);
                 }
 
-                if let Some(known_subtree) = known_subtrees.get(&(current_depth, hash)) {
-                    // Node is already known from elsewhere in the tree. We can replace it without
-                    // looking at further subtrees.
-                    return Ok(IntraRebaseAction::Replace(known_subtree.clone()));
-                }
+                // A subtree padded with `Zero` nodes hashes the same as one that stores zero
+                // *values* in those positions, so an equal hash is not enough: only replace by a
+                // structurally identical subtree.
+                let key_known =
+                    if let Some(known_subtree) = known_subtrees.get(&(current_depth, hash)) {
+                        if known_subtree == orig {
+                            // Node is already known from elsewhere in the tree. We can replace it
+                            // without looking at further subtrees.
+                            return Ok(IntraRebaseAction::Replace(known_subtree.clone()));
+                        }
+                        true
+                    } else {
+                        false
+                    };
 
                 let left_action = Self::intra_rebase(left, known_subtrees, current_depth - 1)?;
                 let right_action = Self::intra_rebase(right, known_subtrees, current_depth - 1)?;
@@ -467,6 +476,11 @@ impl<T: Value> Tree<T> {
                         IntraRebaseAction::Replace(new_right),
                     ) => IntraRebaseAction::Replace(Self::node(new_left, new_right, hash)),
                 };
+
+                // Equal hash but different structure: keep the first-seen subtree in the map.
+                if key_known {
+                    return Ok(action);
+                }
 
                 // Add the new version of this node to the known subtrees.
                 let new_subtree = match &action {
